@@ -193,11 +193,11 @@ theorem C10_call_same_verdict (W : World) (fuel : Nat) (sg : Sig) (mC : Mode) (o
 /-- A rejected collecting call raises one `CollectedParseError`: the reports of the positional loop followed by
 those of the keyword part, cut at `max_errors`. -/
 theorem C10_call_one_exception (W : World) (fuel : Nat) (sg : Sig) (mx : Option Nat) (hk : capOk mx 0)
-    (o : Opts) (args : List Val) (kwargs : Data) (x : Exc)
+    (o : Opts) (args : List Val) (kwargs : Data) (hnd : dupKw sg args kwargs = false) (x : Exc)
     (h : runCall W fuel sg ⟨true, mx⟩ o args kwargs = .error x) :
     x = .collected (cap mx (callReports (parse W fuel) .ff o sg args kwargs)) ∧
     callReports (parse W fuel) .ff o sg args kwargs ≠ [] := by
-  rw [runCall_collect W fuel sg mx hk, ← callReports_eq (parse_good W _ fuel)] at h
+  rw [runCall_collect W fuel sg mx hk o args kwargs hnd, ← callReports_eq (parse_good W _ fuel)] at h
   split at h
   · simp at h
   · rename_i hne
@@ -205,10 +205,10 @@ theorem C10_call_one_exception (W : World) (fuel : Nat) (sg : Sig) (mx : Option 
     exact ⟨h.symm, hne⟩
 
 theorem C10_call_count_le_max (W : World) (fuel : Nat) (sg : Sig) (k : Nat) (hk : 0 < k)
-    (o : Opts) (args : List Val) (kwargs : Data) (x : Exc)
+    (o : Opts) (args : List Val) (kwargs : Data) (hnd : dupKw sg args kwargs = false) (x : Exc)
     (h : runCall W fuel sg ⟨true, some k⟩ o args kwargs = .error x) :
     ∃ es, x = .collected es ∧ es.length ≤ k := by
-  obtain ⟨hx, _⟩ := C10_call_one_exception W fuel sg (some k) hk o args kwargs x h
+  obtain ⟨hx, _⟩ := C10_call_one_exception W fuel sg (some k) hk o args kwargs hnd x h
   exact ⟨_, hx, by simp [cap, List.length_take, Nat.min_le_left]⟩
 
 /-- the errors of the whole keyword mapping of a call -/
@@ -257,12 +257,13 @@ positional argument that is rejected when given alone, an element `*args:j` reje
 keyword / missing parameter / additional key that fails on its own; plus the errors of the keyword mapping as a
 whole. -/
 theorem C10_call_reported_eq_failing (W : World) (fuel : Nat) (sg : Sig) (hpo : sg.nposOnly = 0) (o : Opts)
-    (args : List Val) (kwargs : Data) (x : Exc) (h : runCall W fuel sg ⟨true, none⟩ o args kwargs = .error x) :
+    (args : List Val) (kwargs : Data) (hnd : dupKw sg args kwargs = false) (x : Exc)
+    (h : runCall W fuel sg ⟨true, none⟩ o args kwargs = .error x) :
     ∃ es, x = .collected es ∧
       (∀ e ∈ es, (∃ i, e.item = some i ∧ callFails W fuel sg o args kwargs i = true) ∨
         e ∈ callGlobal W fuel sg o args kwargs) ∧
       (∀ i, callFails W fuel sg o args kwargs i = true → ∃ e ∈ es, e.item = some i) := by
-  obtain ⟨hx, _⟩ := C10_call_one_exception W fuel sg none trivial o args kwargs x h
+  obtain ⟨hx, _⟩ := C10_call_one_exception W fuel sg none trivial o args kwargs hnd x h
   exact ⟨_, hx, fun e he => callReports_sound W fuel sg hpo o args kwargs e he,
     fun i hi => callReports_complete W fuel sg hpo o args kwargs i hi⟩
 
@@ -270,11 +271,12 @@ theorem C10_call_reported_eq_failing (W : World) (fuel : Nat) (sg : Sig) (hpo : 
 of the keyword mapping as a whole). -/
 theorem C10_call_capped_reports_failing (W : World) (fuel : Nat) (sg : Sig) (hpo : sg.nposOnly = 0) (k : Nat)
     (hk : 0 < k) (o : Opts)
-    (args : List Val) (kwargs : Data) (x : Exc) (h : runCall W fuel sg ⟨true, some k⟩ o args kwargs = .error x) :
+    (args : List Val) (kwargs : Data) (hnd : dupKw sg args kwargs = false) (x : Exc)
+    (h : runCall W fuel sg ⟨true, some k⟩ o args kwargs = .error x) :
     ∃ es, x = .collected es ∧ es.length ≤ k ∧
       ∀ e ∈ es, (∃ i, e.item = some i ∧ callFails W fuel sg o args kwargs i = true) ∨
         e ∈ callGlobal W fuel sg o args kwargs := by
-  obtain ⟨hx, _⟩ := C10_call_one_exception W fuel sg (some k) hk o args kwargs x h
+  obtain ⟨hx, _⟩ := C10_call_one_exception W fuel sg (some k) hk o args kwargs hnd x h
   refine ⟨_, hx, by simp [cap, List.length_take, Nat.min_le_left], ?_⟩
   intro e he
   exact callReports_sound W fuel sg hpo o args kwargs e (List.mem_of_mem_take he)
@@ -282,10 +284,10 @@ theorem C10_call_capped_reports_failing (W : World) (fuel : Nat) (sg : Sig) (hpo
 /-- A call is accepted (in either mode) iff none of its items fails on its own and its keyword mapping as a
 whole has nothing to report. -/
 theorem C10_call_accept_iff_none_fails (W : World) (fuel : Nat) (sg : Sig) (hpo : sg.nposOnly = 0) (o : Opts)
-    (args : List Val) (kwargs : Data) :
+    (args : List Val) (kwargs : Data) (hnd : dupKw sg args kwargs = false) :
     isError (runCall W fuel sg .ff o args kwargs) = false ↔
       (∀ i, callFails W fuel sg o args kwargs i = false) ∧ callGlobal W fuel sg o args kwargs = [] := by
-  rw [C10_call_same_verdict W fuel sg ⟨true, none⟩ o args kwargs, runCall_collect W fuel sg none trivial,
+  rw [C10_call_same_verdict W fuel sg ⟨true, none⟩ o args kwargs, runCall_collect W fuel sg none trivial o args kwargs hnd,
     ← callReports_eq (parse_good W _ fuel)]
   constructor
   · intro h
